@@ -50,7 +50,12 @@ MUTANTS = [
      "                ctx.fcn.set_objparams(objparams_copy)\n                yfcn = fcn(yout, *params_copy)\n                ctx.fcn.restore_objparams()\n", 1),
     ("c10_attr_order_revert", "C10", "xitorch/_utils/attr.py",
      "    if _is_registered_param(obj, name):\n        obj._parameters[name] = None\n        obj.__dict__.pop(name, None)\n    else:\n        delattr(obj, name)\n",
-     "    delattr(obj, name)\n", 1),
+     "    delattr(obj, name)\n", 0),   # equivalent since 4bbb525: the nn.Module path now deletes and re-registers
+     # ALL names in registration order, so losing the slot on delete cannot permute them; the slot-keeping
+     # that matters is in _setattr_keep_slot (EditableModule path), mutated by c10_setattr_slot_revert below
+    ("c10_setattr_slot_revert", "C10", "xitorch/_utils/attr.py",
+     "        obj._parameters[name] = None\n        obj.__dict__[name] = val\n    else:\n        setattr(obj, name, val)\n",
+     "        del obj._parameters[name]\n        obj.__dict__[name] = val\n    else:\n        setattr(obj, name, val)\n", 1),
     ("c10_quad_lock_not_released", "C10", "xitorch/_core/pure_function.py",
      "        finally:\n            self._state_change_allowed = prev_status\n",
      "        except ZeroDivisionError:\n            pass\n        if True:\n            self._state_change_allowed = prev_status\n", 1),
